@@ -251,7 +251,11 @@ class HTTP1Connection(httputil.HTTPConnection):
                         )
                     # TODO: client delegates will get headers_received twice
                     # in the case of a 100-continue.  Document or change?
-                    await self._read_message(delegate)
+                    # The recursive call reads the final response (body
+                    # included) and notifies the delegate; nothing is left
+                    # to do for the interim response.
+                    need_delegate_close = False
+                    return await self._read_message(delegate)
             else:
                 if headers.get("Expect") == "100-continue" and not self._write_finished:
                     self.stream.write(b"HTTP/1.1 100 (Continue)\r\n\r\n")
